@@ -108,6 +108,29 @@ def gen_mpi():
     tb = _body(tm, k)
     eager = re.search(r'if\s*\(\s*mpi::detail::poll_request\(r\.op_state\.request\)\s*\)\s*\{(.*?)return\s*;', tb, re.S)
     trigger_checks = eager is not None and 'ex::set_value' in eager.group(1)
+    # register_polling(pool): when is the lock-free single-threaded poller chosen?
+    k = poll.find('inline bool can_run_singlethreaded(std::size_t mode)')
+    if k < 0:
+        raise TieError('can_run_singlethreaded not found')
+    if not re.search(r'return\s*\(\s*enable_pool_\s*&&\s*!use_inline_request\(mode\)\s*\)\s*;', _body(poll, k)):
+        raise TieError('can_run_singlethreaded changed shape (expected enable_pool_ && !use_inline_request(mode))')
+    k = poll.find('void register_polling(pika::threads::detail::thread_pool_base& pool)')
+    if k < 0:
+        raise TieError('register_polling(pool) not found')
+    rb = _body(poll, k)
+    asg = re.findall(r'mpi_data_\.single_thread_mode_\s*=\s*([^;]*);', rb)
+    if len(asg) != 1:
+        raise TieError('register_polling: expected exactly one assignment to single_thread_mode_')
+    rhs = re.sub(r'\s+', ' ', asg[0]).strip()
+    if rhs == 'can_run_singlethreaded(mode)':
+        one_worker = False
+    elif rhs in ('can_run_singlethreaded(mode) && pool.get_os_thread_count() == 1',
+                 'can_run_singlethreaded(mode) && (pool.get_os_thread_count() == 1)'):
+        one_worker = True
+    else:
+        raise TieError('register_polling: cannot classify single_thread_mode_ = %s' % rhs)
+    if not re.search(r'if\s*\(\s*mpi_data_\.single_thread_mode_\s*\)\s*sched->set_mpi_polling_functions\(\s*&poll_singlethreaded', rb):
+        raise TieError('register_polling: poll_singlethreaded is not installed under single_thread_mode_')
     txt = '(* GENERATED by tools/genmods/c20.py from %s, %s, %s — do not edit *)\n' % (POLL, HPP, TM)
     txt += 'From Coq Require Import NArith.\n'
     txt += 'Definition max_poll_requests : nat := %d.\n' % max_poll
@@ -116,6 +139,7 @@ def gen_mpi():
         txt += 'Definition hm_%s : N := %d%%N.\n' % (n, vals[n])
     txt += 'Definition trigger_guarded : bool := %s.\n' % ('true' if guarded else 'false')
     txt += 'Definition trigger_eager_poll_first : bool := %s.\n' % ('true' if trigger_checks else 'false')
+    txt += 'Definition single_mode_one_worker : bool := %s.\n' % ('true' if one_worker else 'false')
     changed = gen.write_if_changed('GenMpi.v', txt)
     return {'max_poll_requests': max_poll, 'polling_size_default': poll_default, 'enumerators': {n: vals[n] for n in need},
-            'trigger_guarded': guarded, 'trigger_eager_poll_first': trigger_checks, 'rewritten': changed}
+            'trigger_guarded': guarded, 'trigger_eager_poll_first': trigger_checks, 'single_mode_one_worker': one_worker, 'rewritten': changed}
